@@ -285,6 +285,11 @@ func report(prop, tier string, seed int, outDir, knownFile string, res *runResul
 		fmt.Printf("  rule %-8s instances=%-3d floor=%-3d %s\n", id, res.PerRule[id], floors[id], docs[id])
 	}
 
+	if os.Getenv("SIALINT_VERBOSE") != "" {
+		for _, o := range res.Obs {
+			fmt.Printf("  ob %-11s %s at %s: %s\n", o.Status, o.Key, o.Pos, o.Msg)
+		}
+	}
 	nViol, nKnown, discharged, nontriv := 0, 0, 0, map[string]bool{}
 	k := 0
 	for _, o := range res.Obs {
